@@ -37,6 +37,32 @@ def outcomes(parts, traits):
     return out
 
 
+# accepted customisations on a field whose type is NOT Sized (the last field of a struct may be `str` / `[u8]`): the
+# documentation allows them like on any other field
+UNSIZED_PRELUDE = '''
+pub fn us_ord(a: &str, b: &str) -> Ordering { a.len().cmp(&b.len()) }
+pub fn us_partial_ord(a: &str, b: &str) -> Option<Ordering> { Some(a.len().cmp(&b.len())) }
+pub fn us_eq(a: &str, b: &str) -> bool { a.len() == b.len() }
+pub fn us_hash<H: Hasher>(a: &str, s: &mut H) { s.write_usize(a.len()) }
+'''
+UNSIZED_ACCEPTED = [(traits, '#[%s]' % attr, shape)
+                    for traits, attr in [
+                        ('PartialEq', 'partial_eq(by = us_eq)'), ('PartialEq', 'eq(by = us_eq)'), ('PartialEq', 'partial_eq(key = $.len())'),
+                        ('PartialEq, Eq', 'eq(by = us_eq)'), ('PartialEq, Eq', 'eq(key = $.len())'),
+                        ('PartialOrd, PartialEq', 'partial_ord(by = us_partial_ord)'), ('PartialOrd, PartialEq', 'ord(by = us_ord)'),
+                        ('PartialOrd, PartialEq', 'partial_ord(key = $.len())'), ('PartialOrd, PartialEq', 'ord(key = $.len(), reverse)'),
+                        ('Ord, PartialOrd, Eq, PartialEq', 'ord(by = us_ord)'), ('Ord, PartialOrd, Eq, PartialEq', 'ord(key = $.len())'),
+                        ('Ord, PartialOrd, Eq, PartialEq', 'ord(by = us_ord, reverse)'),
+                        ('Hash', 'hash(by = us_hash)'), ('Hash', 'hash(key = $.len())'),
+                        ('Hash, Eq, PartialEq', 'ord(key = $.len())'), ('Hash, PartialEq', 'eq(key = $.len())'),
+                        ('PartialOrd', 'partial_ord(by = us_partial_ord)'), ('PartialOrd', 'ord(by = us_ord)'), ('Ord', 'ord(by = us_ord)'),
+                        ('Eq', 'eq(by = us_eq)'), ('Ord, PartialOrd, Eq, PartialEq, Hash', 'ord(key = $.len())'),
+                        ('PartialOrd, PartialEq', 'partial_ord(ignore)'), ('Ord, PartialOrd, Eq, PartialEq, Hash', 'ord(ignore)'),
+                        ('Ord, PartialOrd, Eq, PartialEq', 'ord(reverse)'),
+                    ]
+                    for shape in ('struct X(u8, %s str);', 'struct X { a: u8, %s b: str }')]
+
+
 class C05(Prop):
     pid = 'C05'
     tag = 'which requested traits expand to compile_error! (and the messages), which to impls'
@@ -216,6 +242,35 @@ class C05(Prop):
             else:
                 validated += 1
         l2.cleanup('c05rustc')
+        # accepted customisations on an unsized last field, hand-written, compiled against the real macro
+        class _Lit:
+            def __init__(self, text):
+                self.text, self.meta = text, dict(nontrivial=True)
+            def input_text(self):
+                return self.text
+        lits = []
+        for k, (traits, attr, shape) in enumerate(UNSIZED_ACCEPTED):
+            text = '#[derive_ex(%s)] %s' % (traits, shape % attr)
+            src = ['#[::derive_ex::derive_ex(%s)]\npub %s' % (traits, shape % attr)]
+            tr = [t.strip() for t in traits.split(',')]
+            if ('Eq' in tr or 'PartialOrd' in tr or 'Ord' in tr) and 'PartialEq' not in tr:
+                src.append('impl PartialEq for X { fn eq(&self, _: &Self) -> bool { true } }')
+            if 'Ord' in tr and 'Eq' not in tr:
+                src.append('impl Eq for X {}')
+            if 'Ord' in tr and 'PartialOrd' not in tr:
+                src.append('impl PartialOrd for X { fn partial_cmp(&self, _: &Self) -> Option<Ordering> { None } }')
+            src.append('pub fn run() {}')
+            lits.append(l2.Module(9 * 10 ** 6 + k, '\n'.join(src), _Lit(text)))
+        l2.compile_parallel([('c05unsized', lits)], prelude=G.PRELUDE + UNSIZED_PRELUDE, check_only=True)
+        for mo in lits:
+            if mo.compiled:
+                validated += 1
+            else:
+                failures.append(dict(**{'class': 'accepted-combination-does-not-compile', 'mode': 'rustc-unsized'},
+                                     input=mo.meta.input_text(), expected='compiles (the field is the unsized tail of the struct)',
+                                     observed=[d['message'] for d in mo.diags if d['level'] == 'error'][:4]))
+        l2.cleanup('c05unsized')
+        mods = mods + lits
         return dict(evaluations=len(results) + cf + len(mods), validated=validated, failures=failures, samples=samples,
                     combination_trait_points=points, compile_fail_corpus=cf, programs=len(mods))
 
